@@ -7,9 +7,9 @@ BASELINE = "cd /repo && /venv/bin/python -m pytest -ra -q -p no:cacheprovider --
 # id -> (design_ref, level text, level note, technique)  -- only properties whose check is built and green
 CLAIMED = {
  "C03": ("DESIGN.md §7.C03",
-         "Lean 4 theorems: for every valid/ready schedule and token sequence (induction over the input list) each modelled stream element satisfies accepted = delivered ++ in-flight (no loss/dup/reorder/alteration); compositions by the generic comp_rel theorem. The models are tied to /repo on every run by exhaustive co-exploration of the reachable implementation x model product for small instances and seeded lock-step co-simulation for large ones; a break triggers a scoreboard-driven failing-input search on the real code.",
-         "Trusted: Lean kernel + propext/Quot.sound/Classical.choice; theorem statements; harness + driver; litex.gen.sim.core.Evaluator as netlist semantics; Migen (fifo, Record) executed not verified. Models are hand-written; correspondence is complete only for the small instances listed in the evidence (exhaustive:true) and sampled for the large ones.",
-         "Lean 4 proof (history-invariant induction) + checked model/implementation correspondence"),
+         "Lean 4 theorems by induction over arbitrary per-cycle input lists (every valid/ready schedule, every token sequence, garbage on the lines while valid=0): every modelled stream element (pipes, buffers, sync FIFOs of any depth buffered or not, up/down/stride converters, Pack/Unpack, gearbox for all i,o, mux/demux/gate, cast, delay n, pipelines, BufferizeEndpoints, Shifter) relates accepted to delivered tokens by its documented function (identity, chunking with early last and OR-ed first/last, lane split, bit-stream regrouping, selection), with in-flight content and capacity; compositions by the generic comp_rel theorem. Tied to /repo on every run by exhaustive co-exploration of the reachable implementation x model product for 92 small instances and seeded lock-step co-simulation for 48 large ones; a break triggers a scoreboard-driven failing-input search on the real code.",
+         "Trusted: Lean kernel + propext/Quot.sound/Classical.choice; theorem statements; harness + driver; Evaluator as netlist semantics; Migen (fifo, Record) executed not verified. Down-converting elements are proved under the stream producer contract (_partial, with a negative witness); the stride and reversed-cast bit maps and the down-converter's valid_token_count are validated by correspondence only; AsyncFIFO/ClockDomainCrossing are C05; stream.Crossbar container and the CSR Monitor are not modelled.",
+         "Lean 4 proof (history-invariant induction, simulation and composition lemmas) + checked model/implementation correspondence"),
  "C06": ("DESIGN.md §7.C06",
          "Lean 4 theorems over every state and input, and by induction over every request/response schedule, for wishbone InterconnectShared and Crossbar of arbitrary size (n masters, m slaves, arbitrary decoders, registered or not): routing to the one matching slave or none, ack/err/read data to the owner only, ownership stable until the owner's cyc drops, terminations seen by a master equal the slave responses to its own strobes, grant within n-1 hand-overs (Migen round robin, both policies). Tied to /repo on every run by exhaustive co-exploration of 80 (quick) / 117 (thorough) small fabrics and seeded 32/64-bit co-simulation with a model-independent protocol monitor.",
          "Trusted: Lean kernel + propext/Quot.sound/Classical.choice; theorem statements; harness + driver; Evaluator as netlist semantics; Migen RoundRobin executed (and compared exhaustively for n<=4), not verified. Explicit hypotheses: disjoint decoders (C13) and slaves answering only presented strobes. register=True read data is _partial (known finding C06-registered-decoder-0-latency). Timeout is modelled here; its theorems are C11's.",
@@ -34,6 +34,14 @@ CLAIMED = {
          "Sixteen Lean 4 theorems by induction over arbitrary call histories and arbitrary widths, sizes, n_locs and IO tables: region disjointness on power-of-two windows and unique names after any history, allocation soundness (aligned, inside the address space, overlapping nothing, inside an IO window when uncached), decoder exactness and at most one slave per address after a successful finalize, location uniqueness and range, IO-resource conservation (granted at most once). Tied to /repo by an operation-sequence differential: 20 k (quick) / 240 k (thorough) generated histories run on the real SoCBusHandler / SoCLocHandler / ConstraintManager and through the Lean driver, decoders evaluated on the real Migen expression (exhaustively on toy widths) and end-to-end through real InterconnectShared hardware; model-independent oracles drive the failing-input search with shrinking.",
          "Trusted: Lean kernel + the three standard axioms; theorem statements; harness + driver; Migen Evaluator for decoder expressions. Two _partial hypotheses key the open findings (IO size a power of two: C13-alloc-io-nonpow2; size_pow2 >= bus word bytes: C13-decoder-subword). alloc(size=0) (non-terminating in the real code) and the state left behind by a rejected op are outside the model (the harness rolls back). Bulk finalize stubs the interconnect hardware.",
          "Lean 4 proof (invariants by induction over operation lists) + operation-sequence differential correspondence"),
+ "C10": ("DESIGN.md §7.C10",
+         "Lean 4 theorems over all requests, all stall schedules on the beat stream, all capability sets and all address widths >= 12 for AXIBurst2Beat modelled line by line with its register truncations: for every run in which the offered bursts are legal per AMBA AXI A3.4.1 the delivered beats are exactly the len+1 beats of the specification (address at size granularity, first/last, id), nothing lost or accepted twice, the request consumed exactly with its last beat, the 13-bit signed offset never wraps, the wrap test fires exactly on the last slot of the window. Converter AW/AR arithmetic and W/R data paths are proved for the bursts the converters support (_partial). Tied to /repo by exhaustive product co-exploration over all 32768 requests of the (addr low 7 bits, len 0..15, size 0..3, burst) box under all ready letters, random co-simulation up to len 255 / size 7, arithmetic differential and independent A3.4.1 and byte-level oracles.",
+         "Trusted: Lean kernel + the three standard axioms; theorem statements (incl. the A3.4.1 transcription axiSpecAddr); harness + driver; Evaluator. The b2b theorems assume the AXI master holds its request until accepted; converter theorems are _partial (INCR, full-width, aligned, length multiple of ratio / (len+1)*ratio <= 256) with four open known findings outside those regions and Lean negative witnesses; side-bands (resp/id/user) of the converters are not modelled.",
+         "Lean 4 proof (closed-form register invariant with explicit truncations, case split discharged by omega, induction over runs) + checked model/implementation correspondence"),
+ "C20": ("DESIGN.md §7.C20",
+         "Lean 4 theorems over arbitrary device range tables (the real tables are regenerated from the clocking classes on every run and re-checked by the kernel), all input frequencies and all request lists, with frequencies as exact rationals: for the Xilinx (S6/S7/US/US+, all speed grades), ECP5, iCE40 and NX searches a returned configuration is Valid (every output within its margin when recomputed, every divider/multiplier/VCO inside the declared range), a refusal means no Valid configuration exists in the declared grid, the returned configuration is the first valid one in iteration order, and the parameters placed on the primitive are the configuration's numbers. Tied to /repo by a Python-level differential (3 k quick / 31 k thorough requests through compute_config, do_finalize and the emitted Instance parameters vs the compiled model) plus an exact-rational oracle with brute-force grid search on refusals.",
+         "Trusted: Lean kernel + the three standard axioms; theorem statements; harness + driver. ECP5 completeness (all 4 outputs used), NX PFD soundness and NX input-divider placement are _partial with kernel-checked counter-witnesses (open known findings). Intel, Gowin GW1N/GW2A and the oscillators are tied by correspondence and oracle only (no theorems); GW5A, Efinix and CologneChip are not modelled. Float rounding is replaced by exact rationals: requests within 2^-40 relative of a threshold (about 17 %) are checked by the oracle only. Vendor primitives are not modelled.",
+         "Lean 4 proof (searches as nested findSome? over exact rationals, proved sound/complete/first against a search-independent Valid) + Python-level differential correspondence"),
 }
 
 REASON_PENDING = "check not built yet in this round (model/theorems in progress); no claim is made"
